@@ -10,11 +10,12 @@
        values of the index expressions (a component port c.name is selected by
        an arbitrary code of the name: nothing depends on which),
      - an element-wise update replaces the sub-family at the index values.
-   The step relation over-approximates the executions whose control flow does
-   not depend on the valuation: an assignment to a local stores the denotation
-   of its right-hand side, a phi copies one of its arguments (the same one for
-   every valuation).  Joins under signal-dependent control are the known
-   finding C07-ctl-merge and are outside this relation. *)
+   The step relation over-approximates the executions: an assignment to a local
+   stores the denotation of its right-hand side; a phi copies, for every
+   valuation, one of its arguments, and the choice may depend on the valuation
+   exactly when the branch condition that decides along which edge the block is
+   entered does (signal-dependent control included: since /repo D18 the analysis
+   accounts for it). *)
 From Coq Require Import ZArith List Bool.
 Require Import Model.Base Model.Ir Model.Propagate Model.Justify Model.DegJustify Spec.PolyDeg.
 Import ListNotations.
@@ -114,18 +115,48 @@ Fixpoint den (s : fstore) (e : expr) {struct e} : option fam :=
 
 Definition is_phi_e (e : expr) : bool := match e with EPhi _ _ => true | _ => false end.
 
-Inductive fstep (c : cfg) : fstore -> fstore -> Prop :=
+(* the block that holds the phi statement defining x *)
+Definition phi_block_of (c : cfg) (x : vname) (b : block) : Prop :=
+  In b (c_blocks c) /\ exists m op args k sv st, In (SSubst m x op (EPhi args k) sv st) (b_stmts b).
+
+(* A phi copies, for every valuation, one of its arguments.  WHICH one is decided by
+   the branch condition Propagate.deciding names for the block (a loop header: its own
+   condition; another join: the condition ending its immediate dominator; a block with
+   fewer than two predecessors: nothing to decide): the choice [pick] may depend on the
+   valuation only if that condition, as a function of the valuation in the current
+   store, does (in SSA form the current store holds the operands of the condition's
+   last evaluation, which is the one that decided the edge; before its first
+   evaluation - the first entry of a loop - the choice is fixed).  When no condition can
+   be named the choice is unconstrained. *)
+Definition pick_ok (c : cfg) (idom : list (option N)) (s : fstore) (x : vname) (pick : V -> vname) : Prop :=
+  forall b, phi_block_of c x b ->
+    match deciding (c_blocks c) idom b with
+    | DecNone => forall r r', pick r = pick r'
+    | DecCond cond =>
+      match den s cond with
+      | Some C => (forall r r', C [] r = C [] r') -> forall r r', pick r = pick r'
+      | None => forall r r', pick r = pick r'      (* not evaluated yet: the first entry of a loop *)
+      end
+    | DecOpaque => True
+    end.
+
+Definition phi_fam (s : fstore) (pick : V -> vname) : fam :=
+  fun i rho => match s (pick rho) with Some G => G i rho | None => 0 end.
+
+Inductive fstep (c : cfg) (idom : list (option N)) : fstore -> fstore -> Prop :=
 | fs_assign m x op rhe sv st F s :
     In (SSubst m x op rhe sv st) (all_stmts (c_blocks c)) -> decl_of c x = Some TLocal -> is_param c x = false ->
-    is_phi_e rhe = false -> den s rhe = Some F -> fstep c s (fupd s x (Some F))
-| fs_phi m x op args k sv st a F s :
+    is_phi_e rhe = false -> den s rhe = Some F -> fstep c idom s (fupd s x (Some F))
+| fs_phi m x op args k sv st (pick : V -> vname) s :
     In (SSubst m x op (EPhi args k) sv st) (all_stmts (c_blocks c)) -> decl_of c x = Some TLocal -> is_param c x = false ->
-    In a args -> s a = Some F -> fstep c s (fupd s x (Some F))
+    (forall rho, In (pick rho) args) -> (forall rho, s (pick rho) <> None) ->
+    pick_ok c idom s x pick ->
+    fstep c idom s (fupd s x (Some (phi_fam s pick)))
 | fs_opaque m x op rhe sv st s :
     In (SSubst m x op rhe sv st) (all_stmts (c_blocks c)) -> decl_of c x = Some TLocal -> is_param c x = false ->
-    fstep c s (fupd s x None).
+    fstep c idom s (fupd s x None).
 
-Inductive freachable (c : cfg) (s0 : fstore) : fstore -> Prop :=
-| fr_init : freachable c s0 s0
-| fr_step s s' : freachable c s0 s -> fstep c s s' -> freachable c s0 s'.
+Inductive freachable (c : cfg) (idom : list (option N)) (s0 : fstore) : fstore -> Prop :=
+| fr_init : freachable c idom s0 s0
+| fr_step s s' : freachable c idom s0 s -> fstep c idom s s' -> freachable c idom s0 s'.
 End DegSem.
